@@ -195,9 +195,11 @@ Qed.
    expression, Pattern.expand the root itself, unless the first node expands to an absolute
    path.  In the model re.escape(root) is one single-character literal regex per character
    of the root, whatever the character (the REGEX correspondence suite pins this against
-   CPython's reading of the compiled text on roots with metacharacters).  When the first
-   node has a fixed text ([rooted_ok]), the rooted matcher is, for match / sub / prefix /
-   str, the unrooted matcher [unroot M] with the literal node [root_part root t] in front;
+   CPython's reading of the compiled text on roots with metacharacters).  The test looks at
+   Pattern._first_segment: "" for an empty pattern and for a leading wildcard, else the
+   expansion of the first node.  When that is decided ([rooted_ok]: leading wildcard, empty
+   pattern, or a first node with a fixed text), the rooted matcher is, for match / sub /
+   prefix / str, the unrooted matcher [unroot M] with the literal node [root_part root t] in front;
    [simple_rooted] / [in_grammar_rooted] ask that reading to be in the grammar. *)
 Theorem C11_match_sound_rooted : forall M path d, simple_rooted M -> match_ M path = Ok (Some d) ->
   (exists p0, upto_final_newline path p0 /\
@@ -211,9 +213,8 @@ Proof. exact sub_self_rooted. Qed.
 
 (* the root is literal text: it matches itself and nothing else, character by character,
    whatever characters it contains *)
-Theorem C11_root_is_literal : forall M path d r n0 ns t, simple_rooted M ->
-  p_root (m_pat M) = Some r -> p_nodes (m_pat M) = n0 :: ns ->
-  fixed_text (m_env M) n0 = Some t ->
+Theorem C11_root_is_literal : forall M path d r t, simple_rooted M ->
+  p_root (m_pat M) = Some r -> first_text (m_env M) (p_nodes (m_pat M)) = Some t ->
   match_ M path = Ok (Some d) -> starts_with (root_part r t) path = true.
 Proof. exact rooted_match_starts_with_root. Qed.
 
@@ -249,7 +250,7 @@ Proof.
   split; [reflexivity|]. split; [reflexivity|].
   split; [|split; [|split; [reflexivity|split; [vm_compute; reflexivity|split; vm_compute; reflexivity]]]].
   - split.
-    + split; [constructor|]. simpl. split; [auto|]. eexists. eexists. eexists. split; reflexivity.
+    + split; [constructor|]. simpl. eexists. split; [reflexivity|left; lia].
     + split; [split; [reflexivity|split; [reflexivity|constructor]]|].
       split; [eexists; eexists; vm_compute; reflexivity|].
       split; [repeat constructor|]. split; [repeat constructor|].
@@ -258,7 +259,7 @@ Proof.
       repeat split; auto.
   - split.
     + split; [vm_compute; repeat constructor; simpl; intuition discriminate|].
-      simpl. split; [auto|]. eexists. eexists. eexists. split; [reflexivity|vm_compute; reflexivity].
+      simpl. eexists. split; [vm_compute; reflexivity|left; lia].
     + split; [split; [vm_compute; reflexivity|split; [reflexivity|]]|].
       { vm_compute. repeat constructor; simpl; intuition discriminate. }
       split; [eexists; eexists; vm_compute; reflexivity|].
@@ -269,6 +270,35 @@ Proof.
       right. vm_compute.
       eexists []. exists [47%N], [121%N; 95%N], [(WStar, [46; 102; 116; 108]%N)].
       repeat split; auto.
+Qed.
+
+(* a rooted pattern that starts with a wildcard (the case repaired in the implementation:
+   it raised KeyError / IndexError before):  *.ftl under /r  <->  *.ftl.bak under /s *)
+Example C11_example_rooted_wildcard_first : exists P Q,
+  mk_matcher (of_ascii [42;46;102;116;108]) [] (Some (of_ascii [47;114])) = Ok P /\
+  mk_matcher (of_ascii [42;46;102;116;108;46;98;97;107]) [] (Some (of_ascii [47;115])) = Ok Q /\
+  in_grammar_rooted P /\ in_grammar_rooted Q /\ same_wildcards P Q /\
+  prefix P = Ok (of_ascii [47;114;47]) /\
+  sub P Q (of_ascii [47;114;47;120;46;102;116;108]) = Ok (Some (of_ascii [47;115;47;120;46;102;116;108;46;98;97;107])) /\
+  sub Q P (of_ascii [47;115;47;120;46;102;116;108;46;98;97;107]) = Ok (Some (of_ascii [47;114;47;120;46;102;116;108])).
+Proof.
+  destruct (mk_matcher (of_ascii [42;46;102;116;108]) [] (Some (of_ascii [47;114]))) as [P|] eqn:EP;
+    [|vm_compute in EP; discriminate].
+  destruct (mk_matcher (of_ascii [42;46;102;116;108;46;98;97;107]) [] (Some (of_ascii [47;115]))) as [Q|] eqn:EQ;
+    [|vm_compute in EQ; discriminate].
+  exists P, Q. vm_compute in EP. inversion EP; subst P. vm_compute in EQ. inversion EQ; subst Q.
+  split; [reflexivity|]. split; [reflexivity|].
+  split; [|split; [|split; [reflexivity|split; [vm_compute; reflexivity|split; vm_compute; reflexivity]]]].
+  - split.
+    + split; [constructor|]. simpl. eexists. split; [reflexivity|right; reflexivity].
+    + split; [split; [reflexivity|split; [reflexivity|constructor]]|].
+      split; [eexists; eexists; vm_compute; reflexivity|].
+      split; [repeat constructor|]. split; [repeat constructor|]. left. reflexivity.
+  - split.
+    + split; [constructor|]. simpl. eexists. split; [reflexivity|right; reflexivity].
+    + split; [split; [reflexivity|split; [reflexivity|constructor]]|].
+      split; [eexists; eexists; vm_compute; reflexivity|].
+      split; [repeat constructor|]. split; [repeat constructor|]. left. reflexivity.
 Qed.
 
 (* ---- {android_locale} <-> {locale} layouts, locale detected from the path ------------
